@@ -1623,6 +1623,14 @@ func c19CheckIncludeDepth(c *Ctx, o *Obligation, cl Call) {
 					return true
 				}
 			}
+			// plain lookup of the counter map (`m[k] > K`): a missing key reads as zero, so the one
+			// test covers both the first and every later inclusion
+			if lk, isLk := v.(*ssa.Lookup); isLk && !lk.CommaOk {
+				if _, isMap := lk.X.Type().Underlying().(*types.Map); isMap {
+					counter = lk.X
+					return true
+				}
+			}
 		}
 		return false
 	})
@@ -1644,6 +1652,59 @@ func c19CheckIncludeDepth(c *Ctx, o *Obligation, cl Call) {
 	if !inc {
 		o.Fail("the depth counter %s is never incremented", p.describe(counter))
 		return
+	}
+	// the counter measures depth only while it is balanced: besides counting one up and one down the
+	// function may set it to 1 on the branch where the comma-ok lookup missed; a delete / clear of
+	// the map or any other store resets the count while outer activations are still on the stack
+	// (sibling includes then never reach the bound).
+	isCounterRead := func(v ssa.Value) bool {
+		switch x := v.(type) {
+		case *ssa.Lookup:
+			return p.sameValue(x.X, counter)
+		case *ssa.Extract:
+			lk, isLk := x.Tuple.(*ssa.Lookup)
+			return isLk && x.Index == 0 && p.sameValue(lk.X, counter)
+		}
+		return false
+	}
+	for _, b := range cl.Fn.Blocks {
+		for _, in := range b.Instrs {
+			switch x := in.(type) {
+			case *ssa.MapUpdate:
+				if !p.sameValue(x.Map, counter) {
+					continue
+				}
+				if bo, isBin := x.Value.(*ssa.BinOp); isBin && (bo.Op == token.ADD || bo.Op == token.SUB) && isCounterRead(bo.X) {
+					if one, isC := constInt(bo.Y); isC && one == 1 {
+						continue
+					}
+				}
+				if one, isC := constInt(x.Value); isC && one == 1 {
+					missed := false
+					for _, f := range p.FactsAt(b) {
+						if ex, isEx := f.Cond.(*ssa.Extract); isEx && ex.Index == 1 && !f.Pol {
+							if lk, isLk := ex.Tuple.(*ssa.Lookup); isLk && lk.CommaOk && p.sameValue(lk.X, counter) {
+								missed = true
+							}
+						}
+					}
+					if missed {
+						continue
+					}
+				}
+				o.Fail("the depth counter %s is overwritten at %s by something other than a unit step (the count of the activations still on the stack is lost)", p.describe(counter), p.IPos(in))
+				return
+			case ssa.CallInstruction:
+				bi, isB := x.Common().Value.(*ssa.Builtin)
+				if !isB || (bi.Name() != "delete" && bi.Name() != "clear") || len(x.Common().Args) == 0 {
+					continue
+				}
+				if p.sameValue(x.Common().Args[0], counter) {
+					o.Fail("the depth counter %s is reset by %s at %s while outer activations are still on the stack: sibling includes never reach the bound", p.describe(counter), bi.Name(), p.IPos(in))
+					return
+				}
+			}
+		}
 	}
 	o.OK("bounded by counter " + p.describe(counter))
 }
